@@ -301,6 +301,7 @@ class Field:
     map_key: Optional[str] = None
     oneof: Optional[str] = None
     comment: Optional[str] = None
+    deprecated: bool = False
 
 
 @dataclass
@@ -319,6 +320,7 @@ class Message:
     messages: List["Message"] = field(default_factory=list)
     enums: List[Enum] = field(default_factory=list)
     comment: Optional[str] = None
+    deprecated: bool = False
 
 
 @dataclass
@@ -329,6 +331,7 @@ class Method:
     client_streaming: bool = False
     server_streaming: bool = False
     comment: Optional[str] = None
+    deprecated: bool = False
 
 
 @dataclass
@@ -411,17 +414,20 @@ def _emit_enum(e: Enum, ind: str) -> List[str]:
 
 def _emit_field(f: Field, ind: str) -> List[str]:
     out = _emit_comment(f.comment, ind)
+    opt = " [deprecated = true]" if f.deprecated else ""
     if f.label == "map":
-        out.append("%smap<%s, %s> %s = %d;" % (ind, f.map_key, f.type.proto(), f.name, f.number))
+        out.append("%smap<%s, %s> %s = %d%s;" % (ind, f.map_key, f.type.proto(), f.name, f.number, opt))
     else:
         pre = {"singular": "", "optional": "optional ", "repeated": "repeated "}[f.label]
-        out.append("%s%s%s %s = %d;" % (ind, pre, f.type.proto(), f.name, f.number))
+        out.append("%s%s%s %s = %d%s;" % (ind, pre, f.type.proto(), f.name, f.number, opt))
     return out
 
 
 def _emit_message(m: Message, ind: str) -> List[str]:
     out = _emit_comment(m.comment, ind)
     out.append("%smessage %s {" % (ind, m.name))
+    if m.deprecated:
+        out.append(ind + "  option deprecated = true;")
     for e in m.enums:
         out += _emit_enum(e, ind + "  ")
     for sub in m.messages:
@@ -460,10 +466,11 @@ def emit_file(f: File) -> str:
         out.append("service %s {" % s.name)
         for me in s.methods:
             out += _emit_comment(me.comment, "  ")
-            out.append("  rpc %s (%s%s) returns (%s%s);" % (
+            out.append("  rpc %s (%s%s) returns (%s%s)%s" % (
                 me.name,
                 "stream " if me.client_streaming else "", me.input.proto(),
-                "stream " if me.server_streaming else "", me.output.proto()))
+                "stream " if me.server_streaming else "", me.output.proto(),
+                " { option deprecated = true; }" if me.deprecated else ";"))
         out.append("}")
         out.append("")
     return "\n".join(out) + "\n"
@@ -933,6 +940,26 @@ class SchemaGen:
                         self.hit("rpc.cross_package")
                 f.services.append(sv)
                 self.hit("service")
+        # `deprecated` options (a separate random stream, so the schemas themselves are those of earlier runs): the
+        # plugin emits a __post_init__ / a warning for them, everything else must be as for any other message
+        drng = random.Random(self.rng.random())
+        for f in files:
+            def walk(ms):
+                for m in ms:
+                    if drng.random() < 0.08:
+                        m.deprecated = True
+                        self.hit("deprecated.message")
+                    for fl in m.fields:
+                        if drng.random() < 0.06:
+                            fl.deprecated = True
+                            self.hit("deprecated.field." + ("oneof" if fl.oneof else fl.label))
+                    walk(m.messages)
+            walk(f.messages)
+            for sv in f.services:
+                for me in sv.methods:
+                    if drng.random() < 0.15:
+                        me.deprecated = True
+                        self.hit("deprecated.method")
         return Schema(files=files, features=dict(self.feat))
 
 
@@ -1067,6 +1094,13 @@ def edge_schemas() -> List[Tuple[str, Schema]]:
               Field("c_str", 24, scalar("string"), oneof="choice"), Field("c_enum", 25, E("Color"), oneof="choice"),
               Field("from", 30, scalar("int32")), Field("class", 31, scalar("string")), Field("camelCase", 32, scalar("bool")),
           ], enums=[Enum("Kind", [("KIND_A", 0), ("KIND_B", 2)])]),
+          Message("Old", [Field("a", 1, scalar("int32"), deprecated=True), Field("b", 2, scalar("string")),
+                          Field("o", 3, scalar("int64"), "optional", deprecated=True), Field("r", 4, scalar("int32"), "repeated", deprecated=True),
+                          Field("m", 5, scalar("string"), "map", map_key="int32", deprecated=True),
+                          Field("c_a", 6, scalar("int32"), oneof="pick", deprecated=True), Field("c_b", 7, R("Leaf"), oneof="pick"),
+                          Field("sub", 8, R("Leaf"), deprecated=True)], deprecated=True),
+          Message("HalfOld", [Field("a", 1, scalar("int32")), Field("gone", 2, scalar("bytes"), deprecated=True),
+                              Field("c_a", 6, scalar("int32"), oneof="pick"), Field("c_b", 7, scalar("string"), oneof="pick", deprecated=True)]),
       ],
       services=[Service("CoverSvc", [
           Method("UnaryUnary", R("Leaf"), R("Cover")),
@@ -1074,6 +1108,8 @@ def edge_schemas() -> List[Tuple[str, Schema]]:
           Method("StreamUnary", R("Leaf"), R("Cover"), True, False),
           Method("StreamStream", R("Cover"), R("Leaf"), True, True),
           Method("snake_name", R("Tree"), R("Tree")),
+          Method("OldCall", R("Old"), R("HalfOld"), deprecated=True),
+          Method("OldStream", R("Leaf"), R("Old"), True, True, deprecated=True),
       ]), Service("WktSvc", [
           Method("Now", wkt("Empty"), wkt("Timestamp")),
           Method("Ticks", wkt("Duration"), wkt("Timestamp"), False, True),
@@ -1177,6 +1213,38 @@ def edge_schemas() -> List[Tuple[str, Schema]]:
              messages=[Message("Price", [Field("units", 1, scalar("int64")), Field("currency", 2, TypeRef("enum", "", pb, ("Currency",)))],
                                enums=[Enum("Rounding", [("ROUNDING_NONE", 0), ("ROUNDING_UP", 1)])])]),
     ], features={"edge.cross-file-roots-only": 1, "invocation.roots_only": 1}, invocation="roots")))
+    # scale: a message with 140 fields of every kind and label (numbers up to 2**29-1, skipping the reserved
+    # 19000..19999), types nested 7 deep referenced from the top, an enum with 160 values reaching both int32 ends, a
+    # service with 24 methods
+    sp = "edge.scale"
+    kinds = ["double", "float", "int32", "int64", "uint32", "uint64", "sint32", "sint64", "fixed32", "fixed64", "sfixed32", "sfixed64",
+             "bool", "string", "bytes"]
+    keyk = ["int32", "int64", "uint32", "uint64", "sint32", "sint64", "fixed32", "fixed64", "sfixed32", "sfixed64", "bool", "string"]
+    deep_path = ("L1", "L2", "L3", "L4", "L5", "L6", "L7")
+    inner = Message("L7", [Field("v", 1, scalar("int32"))], enums=[Enum("Bottom", [("BOTTOM_ZERO", 0), ("BOTTOM_ONE", 1)])])
+    for nm in reversed(deep_path[:-1]):
+        inner = Message(nm, [Field("here", 1, scalar("string"))], messages=[inner])
+    big_fields = []
+    numbers = [i + 1 for i in range(100)] + [18999, 20000, 65535, 65536, 2**21 - 1, 2**21, 2**28 - 1, 2**28, 2**28 + 1, 2**29 - 1]
+    numbers += [30000 + i for i in range(30)]
+    for i, num in enumerate(numbers):
+        k = kinds[i % len(kinds)]
+        lab = ("singular", "repeated", "optional", "map", "singular")[i % 5]
+        if i % 17 == 3:
+            t = TypeRef("message", "", sp, deep_path)
+        elif i % 17 == 9:
+            t = TypeRef("enum", "", sp, deep_path + ("Bottom",))
+        elif i % 17 == 12:
+            t = TypeRef("enum", "", sp, ("Wide",))
+        else:
+            t = scalar(k)
+        big_fields.append(Field("f%03d_%s" % (i, lab[:3]), num, t, lab, map_key=keyk[i % len(keyk)] if lab == "map" else None))
+    wide_vals = [("WIDE_ZERO", 0)] + [("WIDE_P%d" % i, i * 13421772) for i in range(1, 80)] + [("WIDE_N%d" % i, -i * 13421772) for i in range(1, 79)]
+    wide_vals += [("WIDE_MAX", 2**31 - 1), ("WIDE_MIN", -2**31)]
+    S("scale", sp, enums=[Enum("Wide", wide_vals)], msgs=[inner, Message("Big", big_fields),
+                                                         Message("Req", [Field("id", 1, scalar("int64"))])],
+      services=[Service("ManyMethods", [Method("Call%02d" % i, TypeRef("message", "", sp, ("Req",)), TypeRef("message", "", sp, ("Big",) if i % 2 else deep_path),
+                                               bool(i & 1) and i % 3 == 0, i % 4 == 1) for i in range(24)])])
     # field names that differ only in case / underscores but are accepted by protoc
     S("field-recase-collision", "edge.fieldrecase", msgs=[
         Message("M", [Field("HTTPCode", 1, scalar("int32")), Field("http_code", 2, scalar("int32"))]),
